@@ -87,6 +87,13 @@ func replayObligation(repo, verif string, o *Obligation) (string, bool) {
 		for _, p := range params {
 			if p.kind == "bytes" {
 				small += "(assert (<= (s.len " + p.term + ") 48))\n(assert (<= (s.cap " + p.term + ") 64))\n"
+				if heap != "" {
+					// byte values of the (bounded) input are bytes
+					for k := 0; k < 48; k++ {
+						e := fmt.Sprintf("(select (select %s (s.ref %s)) (+ (s.off %s) %d))", heap, p.term, p.term, k)
+						small += "(assert (and (<= 0 " + e + ") (<= " + e + " 255)))\n"
+					}
+				}
 			}
 		}
 		for _, g := range fv.contract.Ghost {
